@@ -169,7 +169,8 @@ def run(chk, build):
             o = dict({"rn": RN3}, **o)
         else:
             dt = r.random() < 0.3
-            s = gen.Gen(r.randrange(10 ** 9), datetime=dt).samples(depth=3)
+            gg = gen.Gen(r.randrange(10 ** 9), datetime=dt)
+            s = gg.literal_heavy() if i % 12 == 5 else gg.samples(depth=3)
             o = {"cmp": r.choice([None, None, [("exact",)], [("percent", 0.5)], [("number", 2)]]), "rn": RN6 if dt else RN3,
                  "dkf": r.choice([None, None, ["a"], ["items", "x"]]), "dkr": r.choice([None, None, ["[ab]"]]),
                  "max_literals": r.choice([10, 0, 3])}
